@@ -532,10 +532,16 @@ def dsl_case(case):
         runs.append((["--ojson", "filter", "-f", "prog.mlr"], inp))
     for argv, stdin in runs:
         cwd_files = {"prog.mlr": prog.encode("utf-8", "surrogateescape")}
-        r = R.mlr(argv, stdin=stdin, files=cwd_files, env=ENV, cpu_s=20, watchdog=60, as_bytes=4 << 30)
+        r = R.mlr(argv, stdin=stdin, files=cwd_files, env=ENV, cpu_s=(10 if name == "mutant" else 20), watchdog=60, as_bytes=4 << 30)
         bump(res, "dsl_runs")
         detail = {"argv": argv, "stdin": stdin, "files": {"prog.mlr": prog if len(prog) < 6000 else prog[:6000] + "...(truncated; see name)"}, "ops": ops, "name": name,
                   "gen_seed": case["seed"]}
+        if name == "mutant" and r.verdict == "cpu" and b"out of memory" not in r.stderr:
+            # a token mutant can be a program that loops by its own logic (a deleted `break`, a mutated loop condition):
+            # indistinguishable from outside, so not judged - counted
+            bump(res, "dsl_mutant_runs_that_exhausted_cpu_(own_loop?)")
+            res["inconc"] += 1
+            continue
         ok = judge(res, r, {"where": "dsl", "name": name if name != "mutant" else "mutant"}, f"DSL program ({name}, {ops})", detail)
         if ok:
             bump(res, "dsl_ok_exit0" if r.rc == 0 else "dsl_ok_mlr_error")
